@@ -253,6 +253,11 @@ theorem quiet_pre (hist : List Out) (st : St) (e : Ev) (j : Nat) (hb : Both hist
     · exact ⟨ackw_same j st _ rfl h, rfl⟩
     · exact ⟨ackw_same j st _ rfl h, rfl⟩
   | setReset b => exact ⟨ackw_same j st _ rfl h, rfl⟩
+  | connect =>
+    simp only [pre]
+    split
+    · exact ⟨h0, rfl⟩
+    · exact ⟨ackw_same j st _ rfl h, rfl⟩
 
 /-- **no data frame is written by an event that does not end the pending acknowledgement wait** -/
 theorem no_write_while_waiting (hist : List Out) (st : St) (e : Ev) (j : Nat) (hb : Both hist st)
